@@ -10,7 +10,10 @@ import (
 	"bytes"
 	"fmt"
 	"strings"
+	"syscall"
 	"time"
+
+	"github.com/whawty/auth/zzverif/simsignal"
 
 	"github.com/whawty/auth/zzverif/simfs"
 	"github.com/whawty/auth/zzverif/simrt"
@@ -349,11 +352,38 @@ func propC14A(r *Run) {
 		}
 		def := cfg.SetMap()[cfg.Default]
 		n := 3 + r.Choose("nwrites", 8)
+		reloadAt := -1
+		if r.Choose("with-reload", 3) == 0 {
+			reloadAt = r.Choose("reload-at", n)
+		}
 		seen := map[string]bool{}
 		w.fs.KeepBytes = true
 		var marker []string
 		for i := 0; i < n; i++ {
 			time.Sleep([]time.Duration{0, time.Second, time.Hour}[r.Choose("clock", 3)])
+			if i == reloadAt {
+				// the configuration is changed to another default and reloaded: from now on that is
+				// "the configured default parameter set"
+				nc := cfg
+				for _, s := range cfg.Sets {
+					if s.ID != cfg.Default {
+						nc.Default = s.ID
+					}
+				}
+				w.fs.Put(a.cfgPath, []byte(nc.YAML()), 0o600)
+				simsignal.Raise(syscall.SIGHUP, -1)
+				if wedge := w.settle(nil); wedge != "" {
+					r.FailOther("C10", wedgeSignature(wedge), "%s", wedge)
+					return
+				}
+				if !w.reloadConsumed(a) {
+					r.Fail("harness/reload-not-consumed", "SIGHUP not processed")
+				}
+				cfg = nc
+				def = cfg.SetMap()[cfg.Default]
+				r.Count("fault:sighup-reload")
+				r.Logf("reloaded: default is now %d", cfg.Default)
+			}
 			u := append(users, "newbie")[r.Choose("user", len(users)+1)]
 			pw := fmt.Sprintf("agent pw #%d with marker!", i)
 			marker = append(marker, pw)
